@@ -182,6 +182,7 @@ type lockCase struct {
 	op     Step
 	readOp bool // the writer restores the post state into a fresh instance
 	custom bool // build on the custom storage back-ends (operations can be suspended at a look-up)
+	full   bool // a full forest (it tracks every leaf, so remembering verifications are queries without an effect)
 }
 
 // applyPartialStep applies one step of the Partial family to m (sequentially,
@@ -880,6 +881,13 @@ func (r *Runner) lockStress(l *Line, res *lineResult, fail func(cat, what string
 	if lineHash(l.raw)%2 == 1 {
 		c.rows = 0
 	}
+	// every third case runs on a full forest: it tracks every leaf, so the remembering verifications are
+	// among the readers' queries there (on a partial forest they have an effect and belong to the effect schedules)
+	c.full = (lineHash(l.raw)/2)%3 == 0
+	kinds := queryKinds
+	if c.full {
+		kinds = append(append([]string{}, queryKinds...), rememberKinds...)
+	}
 	// the writer's programme: the history, then (if it ends in a block) that
 	// block undone and applied again, several times
 	type wop struct {
@@ -918,21 +926,22 @@ func (r *Runner) lockStress(l *Line, res *lineResult, fail func(cat, what string
 	}
 	// a sequential twin runs the same programme first: its answers after every
 	// operation are the whole-block answers
-	twin := newMap(false, c.rows)
+	twin := newMap(c.full, c.rows)
 	var args *queryArgs
 	{
-		probe := newMap(false, c.rows)
+		probe := newMap(c.full, c.rows)
 		for _, op := range prog[:len(all)] {
 			if err := c.applyStep(probe, &op.st, op.n, op.prevN); err != nil {
 				return
 			}
 		}
 		args = c.argsFor(probe, 0)
+		args.rememberOK = c.full && len(args.vHashes) > 0
 	}
 	ans := make([]map[string]string, 0, len(prog)+1)
 	snap := func() {
 		a := map[string]string{}
-		for _, k := range queryKinds {
+		for _, k := range kinds {
 			a[k] = c.answer(twin, k, args)
 		}
 		ans = append(ans, a)
@@ -944,7 +953,7 @@ func (r *Runner) lockStress(l *Line, res *lineResult, fail func(cat, what string
 		}
 		snap()
 	}
-	m := newMap(false, c.rows)
+	m := newMap(c.full, c.rows)
 	var committed, started atomic.Int32
 	stop := make(chan struct{})
 	var wg sync.WaitGroup
@@ -962,7 +971,7 @@ func (r *Runner) lockStress(l *Line, res *lineResult, fail func(cat, what string
 					return
 				default:
 				}
-				k := queryKinds[i%len(queryKinds)]
+				k := kinds[i%len(kinds)]
 				c0 := int(committed.Load())
 				a := c.answer(m, k, args)
 				s1 := int(started.Load())
@@ -1034,6 +1043,9 @@ func (r *Runner) lockStress(l *Line, res *lineResult, fail func(cat, what string
 	}
 	res.calls += int(ncalls.Load())
 	res.extra["stress_runs"]++
+	if c.full {
+		res.extra["stress_runs_full_forest"]++
+	}
 	res.extra["stress_writer_ops"] += len(prog)
 	res.extra["stress_queries"] += int(ncalls.Load())
 }
